@@ -161,6 +161,36 @@ CLAIMED.update({
         design='DESIGN.md section 4, C20'),
 })
 
+CLAIMED.update({
+    'C06': dict(
+        category='other',
+        technique='field-ownership rule over all write effects (typed receivers) + must-pass-through pairing on the CFG under both xsd_check settings, with object identity by def-use',
+        text=("Decides: only the owner functions write the insertion list, the leaf lists, the two back-pointers and the container root; on every normal path add_child "
+              "hands the same child to the matcher, appends it and sets its parent; remove takes it off the list, detaches it from its own leaf, clears both back-pointers; "
+              "replace_child swaps list position and leaf slot by identity of the removed child, sets the new child's pointers and clears the removed child's parent; "
+              "duplicated branches are pruned only below a wrapper, only while another occurrence remains; after re-homing every sub-tree of the trial copy is swapped in."),
+        note="Does not decide conservation of children inside the matcher's own restructuring (run-time behaviour). KF-01/KF-02 (reported under C10) are C06 violations too.",
+        design='DESIGN.md section 4, C06'),
+    'C10': dict(
+        category='other',
+        technique='interprocedural write-before-raise analysis (R-ATOM): effect summaries with freshness roots over call-graph SCCs, CFG reachability write->raise, mechanical pruning of dead raise sites',
+        text=("Decides, from add_child, remove, replace_child, _set_attributes/__setattr__, the value setter, to_string and write: no write to primary state of an object that "
+              "existed before the call is followed, on any path through the call graph, by a raise that can still escape, except the enumerated known findings (KF-01 attach "
+              "before the occurrence check, KF-02/02b trial copies rewriting back-pointers); raise sites are pruned only by literal-argument guards, single-writer "
+              "invariants, the parent/child premise, negated call-site guards or the selector-validated premise; a new raise site after a known unprotected write is a new violation."),
+        note=("Assumes internal shape guards of the matcher infrastructure cannot fire, and classifies iterator caches, requirement flags and duplicate re-wiring as derived "
+              "state (can only make the rule miss). Does not decide equality of acceptance of every next child."),
+        design='DESIGN.md section 4, C10'),
+    'C11': dict(
+        category='other',
+        technique='set/reset pairing of matcher flags between the call closures of add_child and remove (write effects + loop extent), guard analysis of the resets',
+        text=("Decides for each matcher flag written on the insertion path whether the call closure of remove() contains a reset with the same traversal extent: duplicates "
+              "are pruned (guards checked), requirement flags and the immediate choice commitment are reset under no condition beyond the commitment test; force_validate "
+              "has no reset (KF-03) and chosen_child is reset without the path loop the insertion uses (KF-04); only owner functions re-point the container root."),
+        note="Does not decide observational equivalence with a rebuilt twin (run-time behaviour).",
+        design='DESIGN.md section 4, C11'),
+})
+
 NOT_APPLICABLE = {
     'C02': "Acceptance and order preservation for every word of 94 regular languages is the run-time behaviour of a heuristic matcher (first-fit leaf choice, choice commitment, duplication) on a mutable tree; no structural rule bounds the reachable tree states, and running the matcher (concretely or symbolically) is a different technique family. The one structural by-product (an unimplemented branch reachable from a valid word) is reported under C19.",
     'C07': "'Every accepted state has a completion' is an existential claim per reachable matcher state; the reachable states are defined by execution histories, not by the shape of the code. The rejection points that exist are covered as ordering/atomicity obligations of C01/C10, which is not a verdict on C07.",
